@@ -519,7 +519,9 @@ def run(ctx):
     # broken obligations without a confirmed failing input
     for u in unconfirmed:
         ctx.violation("uncovered:%s:%s" % (u["fn"], u["call"]), {"kind": "uncovered-path", "theorem": "JanetModel.Props.C18.gen_certOK", "row": {k: u[k] for k in ("fn", "call", "need", "entries", "bindings", "src")}},
-                      found=False, what="%s reaches %s (tracked mode %s, asserted mask variable %s) without asserting %s (entries %s); the sweep could not trigger it" % (u["fn"], u["call"], u.get("mode"), capnames(u.get("asserted_mask", 0)), capnames(u["need"]), u["entries"][:4]))
+                      found=False, what="%s reaches %s (tracked mode %s, asserted mask variable %s, guard variables %s) without asserting %s (entries %s); the sweep could not trigger it" % (
+                          u["fn"], u["call"], u.get("mode"), capnames(u.get("asserted_mask", 0)),
+                          [(u.get("guards", 0) >> (8 * k)) & 255 for k in range(gen.MAX_GUARDS)], capnames(u["need"]), u["entries"][:4]))
     if broken and not witnesses and not unconfirmed and not fdiffs:
         ctx.violation("broken:" + broken[0][:80], {"kind": "broken-obligation", "broken": broken}, found=False,
                       what="no longer shown to hold: " + "; ".join(broken)[:600])
@@ -546,7 +548,10 @@ def run(ctx):
         "fopen: io.c checkflags' result variable (JANET_FILE_* bits) is tracked statically and the matching capability is required where it is handed back (w+ = write-kind, a+ = read and write); that libc parses the same string the same way is trusted and compared with observed mode strings",
         "argument-dependent calls: dlopen/dlsym/getaddrinfo/bind require the capability of the enclosing C function's role (Cap.siteRole, reviewed table; an unlisted site must have asserted every candidate), janet_get_addrinfo's getaddrinfo follows its constant `passive` argument (Op.call g m0); the sweep checks the same per observed call by binding",
         "havoc nodes = interpreter runs (Ex in Model.lean): indirect calls reach only address-taken functions (C semantics, trusted); those inside the slice are entry points (gen_entries: independent scan of the IR text vs the checked entry list, kernel-evaluated; sandbox_enforced_addr is stated for the entry list defined from that scan); those outside reach sensitive calls only through further indirect calls or janet_sandbox",
-        "a janet_sandbox_assert argument that is a local built from constants / `p ? A : B` is tracked (assertMd, modeUpd, modeGuard); any other non-constant argument is an ExtractError (broken tie)",
+        "a janet_sandbox_assert argument that is a local built from constants / `p ? A : B` / the parameter of an assert-forwarding helper whose call sites all pass constants is tracked (assertMd, modeUpd, modeGuard, one graph function per constant); any other non-constant argument is an ExtractError (broken tie)",
+        "guard variables: an int local that is only ever assigned constants 0..255 (address never used otherwise) and decides a conditional branch gets a bit field of the activation's word; each branch edge is a modeTest node; the transcription of these stores and branches is trusted like the rest of the graph; at most 4 per function, further ones are not tracked (every path possible)",
+        "a setjmp call inside the slice is a havoc node (nothing known before is kept when it returns again); a function that calls setjmp and has a tracked variable is an ExtractError",
+        "data-flow shape of janet_sandbox / janet_core_sandbox is regenerated (gen_sandboxShape); WHICH table entry a keyword selects (first match by name) is tied by the keyword scenarios only",
         "thread start: the regenerated shape (gen_threadStart) says every hand-over of janet_go_thread_subr passes the current flag word and the new thread stores it after janet_init; pthread scheduling and the message copy in janet_ev_threaded_call are trusted",
         "sandboxCfun is a hand-written model of corelib.c janet_core_sandbox; tie = regenerated sandbox_options[] (gen_tables) + keyword-sequence scenarios vs driver kwseq",
     ])
